@@ -2,6 +2,7 @@
 pyvc.funpack -- run one function contract through the symbolic executor and settle its obligations in a Pack.
 """
 import time
+import os
 import traceback
 
 import z3
@@ -20,6 +21,24 @@ import re
 
 def base_name(name):
     return re.sub(r'@\d+$', '', name.split('#path')[0])
+
+
+
+def run_replay(replay, *args):
+    """Call a native replay harness.  A harness failure is not a verdict -- except for harnesses that drive the REAL program on stock
+    inputs (attribute ``real_system``): there an exception that passes through repository code means the program crashed on an
+    input it handles on the unchanged tree, which is a confirmed failure with that input."""
+    try:
+        return replay(*args)
+    except Exception as e:      # noqa
+        tb = traceback.extract_tb(e.__traceback__)
+        repo = os.environ.get('VERIF_REPO', '/repo')
+        in_repo = [f for f in tb if f.filename.startswith(repo + '/')]
+        if getattr(replay, 'real_system', False) and in_repo:
+            return {'confirmed': True, 'inputs': {'harness': getattr(replay, '__doc__', '') and replay.__doc__.strip()[:300]},
+                    'observed': 'the program raised %r at %s:%d' % (e, in_repo[-1].filename, in_repo[-1].lineno),
+                    'trace': traceback.format_exc()[-900:], 'native_cmd': '%s.%s' % (replay.__module__, replay.__name__)}
+        return {'confirmed': False, 'error': repr(e), 'trace': traceback.format_exc()[-600:]}
 
 
 def verify(pack, contract, externals=None, replay=None, witnesses=None, timeout_ms=None, repo=None):
@@ -42,10 +61,7 @@ def verify(pack, contract, externals=None, replay=None, witnesses=None, timeout_
         if replay is not None:
             # no verification conditions could be generated: the native replay harness of this contract may still exhibit
             # a failing input on the real code (only a confirmed one is reported as a violation)
-            try:
-                conf = replay(name, {}, {})
-            except Exception as e2:      # noqa
-                conf = {'confirmed': False, 'error': repr(e2), 'trace': traceback.format_exc()[-600:]}
+            conf = run_replay(replay, name, {}, {})
         if conf and conf.get('confirmed'):
             pack.violation(name, {'solver': 'none', 'solver_output': 'function left the verified subset: %s' % e,
                                   'function': contract.qualname, 'file': contract.file, 'native': conf})
@@ -107,10 +123,7 @@ def verify(pack, contract, externals=None, replay=None, witnesses=None, timeout_
                        'source_sha256': ex.sha, 'obligation_kind': name.split('/')[-1], 'first_failing_path': name}
             conf = None
             if replay is not None:
-                try:
-                    conf = replay(bname, d['model'] or {}, meta)
-                except Exception as e:  # replay harness failure is not a verdict
-                    conf = {'confirmed': False, 'error': repr(e), 'trace': traceback.format_exc()[-600:]}
+                conf = run_replay(replay, bname, d['model'] or {}, meta)
             if conf:
                 payload['native'] = conf
             if conf and conf.get('confirmed'):
@@ -139,10 +152,7 @@ def verify(pack, contract, externals=None, replay=None, witnesses=None, timeout_
                 if replay is not None:
                     # the solver left the obligation open: a native run of the real function over the replay
                     # harness's own inputs may still exhibit a failing input (only a confirmed one is reported)
-                    try:
-                        conf = replay(bname, {}, meta)
-                    except Exception as e:
-                        conf = {'confirmed': False, 'error': repr(e), 'trace': traceback.format_exc()[-600:]}
+                    conf = run_replay(replay, bname, {}, meta)
                 if conf and conf.get('confirmed'):
                     pack.violation(bname, {'solver': d['backend'], 'solver_output': 'unknown (%s)' % d.get('note', ''),
                                            'function': contract.qualname, 'file': contract.file, 'source_sha256': ex.sha,
